@@ -66,6 +66,50 @@ run "check_declared: set difference style" C04 'mako/codegen.py@@            if 
             self.undeclared.add(ident)
         for ident in node.declared_identifiers():
             self.locally_declared.add(ident)'
+run "declares: the two set differences swapped, union spelled set()" C04 'mako/codegen.py@@        to_write = to_write.union(identifiers.undeclared)@@        to_write = set(identifiers.undeclared)' 'mako/codegen.py@@        to_write = to_write.difference(identifiers.argument_declared)@@        to_write = to_write.difference(identifiers.locally_declared)' 'mako/codegen.py@@        to_write = to_write.difference(identifiers.locally_declared)
+
+        if self.compiler.enable_loop:@@        to_write = to_write.difference(identifiers.argument_declared)
+
+        if self.compiler.enable_loop:'
+run "def finish: local renamed, filtered test hoisted" C05 'mako/codegen.py@@            s = "__M_buf.getvalue()"
+            if filtered:
+                s = self.create_filter_callable(
+                    node.filter_args.args, s, False
+                )
+            self.printer.writeline(None)
+            if buffered and not cached:
+                s = self.create_filter_callable(
+                    self.compiler.buffer_filters, s, False
+                )
+            if buffered or cached:
+                self.printer.writeline("return %s" % s)
+            else:
+                self.printer.writelines("__M_writer(%s)" % s,@@            out = "__M_buf.getvalue()"
+            if filtered:
+                out = self.create_filter_callable(
+                    node.filter_args.args, out, False
+                )
+            self.printer.writeline(None)
+            if not cached and buffered:
+                out = self.create_filter_callable(
+                    self.compiler.buffer_filters, out, False
+                )
+            if buffered or cached:
+                self.printer.writeline("return %s" % out)
+            else:
+                self.printer.writelines("__M_writer(%s)" % out,'
+run "include: cleaned context held in a local first" C07 'mako/runtime.py@@    callable_, ctx = _populate_self_namespace(
+        context._clean_inheritance_tokens(), template
+    )
+    kwargs = _kwargs_for_include@@    cleaned = context._clean_inheritance_tokens()
+    callable_, ctx = _populate_self_namespace(cleaned, template)
+    kwargs = _kwargs_for_include'
+run "invalidate_closure: name bound to a local" C17 'mako/cache.py@@        self.invalidate(name, __M_defname=name)@@        defname = name
+        self.invalidate(defname, __M_defname=defname)'
+run "getvalue: join first, encode second, in two statements" C18 'mako/util.py@@            return self.delim.join(self.data).encode(
+                self.encoding, self.errors
+            )@@            text = self.delim.join(self.data)
+            return text.encode(self.encoding, self.errors)'
 d=$(mktemp -d /tmp/mrepo_XXXX); cp -r /repo/mako $d/mako
 sed -i 's/__M_caller/__M_cframe/g' $d/mako/codegen.py
 for p in C05 C13; do echo "--- rename generated local __M_caller -> __M_cframe ($p)"; MAKO_REPO=$d ./vcheck check $p 2>&1 | grep -E "^property|^VIOLATION|^UNDECIDED|^CHECKER" | cut -c1-200 | head -4; done
